@@ -689,6 +689,12 @@ def sx_mod(a, b):
                 pre, post = a.split("%s")
                 x = args[0]
                 return SymStr(list(pre) + ([x] if isinstance(x, SymChar) else x.chars) + list(post))
+            if a.count("%s") == len(args) and a.count("%") == len(args) and all(isinstance(x, (SymStr, SymChar, str)) for x in args):
+                parts = a.split("%s")
+                out = list(parts[0])
+                for p, x in zip(parts[1:], args):
+                    out += (list(x.chars) if isinstance(x, SymStr) else [x] if isinstance(x, SymChar) else list(x)) + list(p)
+                return SymStr(out)
             if a.count("%s") == len(args) and a.count("%") == len(args) and all(isinstance(x, (ZStr, str)) for x in args):
                 parts = a.split("%s")
                 t = ZStr(parts[0])
